@@ -23,10 +23,16 @@ from .. import model as M
 from ..codec import NAMED, src, unsrc
 from ..common import verdict
 from ..runner import Acc, parallel
-from ..values import ZOO, cp, perturb
+from ..values import ZOO, cp, missing_variants, perturb
 
 LEAVES = [None, True, False, 0, 1, -7, 2 ** 70, 0.0, 1.5, 2.5e-12, "", "a", b"", b"a", M.FIX_UUID,
-          M.FIX_DT, M.FIX_DATE, float("inf"), float("-inf"), float("nan")]
+          M.FIX_DT, M.FIX_DATE, float("inf"), float("-inf"), float("nan"),
+          # text that is not in Unicode normal form C (a base letter + combining mark, a
+          # compatibility sign), a lone surrogate, NUL
+          "e\u0301", "\u212b\u2126", "\ud800", "a\x00b"]
+# keys of every hashable plain kind (a dict is plain data whatever it is keyed by)
+KEYS = [None, True, 0, -7, 1.5, "", "a b", b"k", (1, 2), M.FIX_UUID, M.FIX_DATE, M.FIX_DT, frozenset([1]),
+        "e\u0301"]
 NONPLAIN = [decimal.Decimal("1.5"), fractions.Fraction(1, 3), complex(1, 2), (1, 2), (), {1, 2},
             frozenset([1]), bytearray(b"ab"), range(3), NAMED["memoryview"],
             uuid.UUID("51c2f442-bf61-11f1-b9da-02fc00000001"), uuid.uuid5(uuid.NAMESPACE_DNS, "x"),
@@ -53,6 +59,9 @@ def plain_values(tier):
         rep = LEAVES + d1[::29]
     d2 = containers(rep, keys=("k", 1))
     out = d0 + d1 + d2
+    for k in KEYS:
+        out += [{k: 1}, {k: None, "a": "x"}, {"a": {k: [1]}}, [{k: "a"}, {k: "a", "z": 0}]]
+    out.append({k: i for i, k in enumerate(KEYS) if k is not True and k != 0 or k is None})
     if tier == "thorough":
         rep3 = [None, 1, "a"] + d2[::97]
         out += containers(rep3, keys=("", (1, 2)))
@@ -115,7 +124,7 @@ def judge_plain(v, rng, acc=None):
             found.append((f"C14|generates-other-value|{type(v).__name__}", src(o[1])))
             break
     term = M.native_term(v)
-    for w in perturb(v):
+    for w in perturb(v) + missing_variants(v):
         if acc:
             acc.count("perturbations")
         got = verdict(s, w)
